@@ -1,8 +1,8 @@
 (* Property C04 — spans never split a UTF-8 code point on str input.
    Only final statements; proofs in Engine/Utf8Proofs.v and Engine/Utf8Lex.v. *)
-From Coq Require Import List NArith.
+From Coq Require Import List NArith FMapPositive.
 From LogosV Require Import Base.Utf8 Engine.Model Engine.Cert Engine.CertProofs Engine.SpecProofs
-  Engine.LexProofs Engine.Utf8Proofs Engine.Utf8Lex Engine.Run Runtime.Source.
+  Engine.LexProofs Engine.Utf8Proofs Engine.Utf8Lex Engine.Run Runtime.Source Engine.Prog Engine.StreamProg.
 Local Open Scope N_scope.
 
 (* every match of a certified DFA that starts on a char boundary of valid UTF-8 text ends on one *)
@@ -35,3 +35,16 @@ Proof. exact lex_bnd. Qed.
 Theorem C04_fb_str_boundary : forall (w : list byte) i,
   bytes_ok w -> utf8_valid w = true -> i <= N.of_nat (length w) -> BndN w (fb_str w i).
 Proof. exact fb_str_boundary. Qed.
+
+(* the same for the program the code generator emits (translator K12, checker prog_ok) *)
+Theorem C04_emitted_spans_on_boundaries : forall U g p,
+  prog_ok g p = true -> wf_graph g = true ->
+  forall d V R D, dfa_ok d = true -> sim_ok d g V D = true -> exact_ok d g V R D = true ->
+  forall P act fb (w : list byte), utf8_ok d P = true -> bytes_ok w -> utf8_valid w = true ->
+  (forall l s e, s < e -> e <= N.of_nat (length w) -> BndN w e ->
+      e + snd (act l s e) <= N.of_nat (length w) /\ BndN w (e + snd (act l s e))) ->
+  (forall i, i <= N.of_nat (length w) -> i <= fb i /\ fb i <= N.of_nat (length w) /\ BndN w (fb i)) ->
+  forall fuel start rs o, start <= N.of_nat (length w) -> BndN w start ->
+  lex_from (fun ip s r => fst (attempt_prog U p (PositiveMap.cardinal (g_states g)) ip s r)) act fb w false fuel start = (rs, o) ->
+  ends_bnd w rs /\ match o with Finished s e => BndN w s /\ BndN w e | _ => True end.
+Proof. exact emitted_spans_on_boundaries. Qed.
